@@ -484,6 +484,13 @@ def common_summaries():
                             acc3 = list(acc3) + [Agg({0: e2[0], 1: e2[1]}, 'tuple')]
                     pending.append((s2, c3, acc3))
             return outs
+        if isinstance(it, Agg) and it.ty == 'EventsIter':
+            # mio::Events::iter(): a concrete list of events (the harness decides the batch), position kept in the iterator value
+            ev = deref(ex, st, it.fields[0])
+            i = z3.simplify(it.fields[1].bv).as_long()
+            vals = [value_copy(x) for x in ev.items[i:]]
+            it.fields[1] = Int(len(ev.items), 64)
+            return [(st, carry, vals)]
         raise Unsupported(f"collect/extend from {it!r}")
 
     @reg(r' as Iterator>::(try_for_each|for_each)::<')
